@@ -571,3 +571,57 @@ Proof.
   intros Hwf Hst. destruct (g_get a k) eqn:Hg; [|reflexivity].
   apply (get_isLive _ _ _ Hwf) in Hg. apply stale_not_live in Hst. congruence.
 Qed.
+
+(* ---------------------------------------------------------------------------------------------- *)
+(* the bound in the freshness theorem is tight: 2^gen_bits recyclings of one position bring back an old id.
+   Symbolic (no computation): cycles of erase-then-insert on a one-entry array. *)
+Section Wrap.
+  Context {T : Type}.
+
+  Definition single (g : N) (v : T) : garray T :=
+    {| g_slots := [Some (g, v)];
+       g_alloc := {| ga_entries := [{| ae_live := true; ae_gen := g |}]; ga_free := [] |} |}.
+
+  Definition key0 (g : N) : gidx := {| gi_index := 0; gi_gen := g |}.
+
+  Lemma cycle_single g v v' :
+    g_insert (g_erase (single g v) (key0 g)) v' = (single ((g + 1) mod W)%N v', key0 ((g + 1) mod W)%N).
+  Proof.
+    unfold g_erase, ga_deallocate, ga_isLive, single, key0; cbn.
+    rewrite N.eqb_refl; cbn. reflexivity.
+  Qed.
+
+  (* n times: erase the current occupant, insert (vs n) *)
+  Fixpoint cycles (n : nat) (vs : nat -> T) (st : garray T * gidx) : garray T * gidx :=
+    match n with
+    | O => st
+    | S n' => let '(a, k) := cycles n' vs st in g_insert (g_erase a k) (vs n')
+    end.
+
+  Lemma cycles_single n vs v0 :
+    (0 < n) ->
+    cycles n vs (single 0 v0, key0 0) = (single (N.of_nat n mod W)%N (vs (n - 1)), key0 (N.of_nat n mod W)%N).
+  Proof.
+    pose proof W_gt1 as HW.
+    induction n as [|n IH]; intros Hn; [lia|].
+    cbn [cycles]. destruct n as [|n'].
+    - cbn [cycles]. rewrite cycle_single. cbn. reflexivity.
+    - rewrite IH by lia. rewrite cycle_single.
+      replace (S (S n') - 1) with (S n') by lia. replace (S n' - 1) with n' by lia.
+      rewrite N.add_mod_idemp_l by lia.
+      replace (N.of_nat (S n') + 1)%N with (N.of_nat (S (S n'))) by lia. reflexivity.
+  Qed.
+
+  (* after exactly W recyclings the very first id designates the newest value *)
+  Theorem wrap_aliases (v0 vnew : T) :
+    let '(a, k) := cycles (N.to_nat W) (fun _ => vnew) (single 0 v0, key0 0) in
+    k = key0 0 /\ g_get a (key0 0) = Some vnew.
+  Proof.
+    pose proof W_gt1 as HW.
+    rewrite cycles_single by lia. rewrite N2Nat.id, N.mod_same by lia.
+    split; [reflexivity|]. unfold g_get, single, key0; cbn. reflexivity.
+  Qed.
+
+  Lemma single_is_first_insert (v0 : T) : g_insert g_empty v0 = (single 0 v0, key0 0).
+  Proof. reflexivity. Qed.
+End Wrap.
